@@ -12,12 +12,23 @@ Case kinds
              the property does not depend on, copy the object, validate again, append through frames bound
              to it — every verdict is judged against the columns as they are at that moment
   dictframe  appends to a frame built from dictionaries (no schema object: atomicity and column order only)
+  family     several frames of one schema: a root frame and frames derived from it (head / tail / slice / query /
+             distinct / filter / take / to_batches / +); appends go to any of them, each frame is a register of
+             its own append history: it holds exactly its original rows plus the records accepted by appends to IT
+
+The record *object* is a dimension of its own (`container` / `containers`): every kind of mapping (dict and its
+subclasses, Counter, ChainMap, UserDict, a custom MutableMapping), read-only mappings (MappingProxyType, a custom
+Mapping), a duck-typed look-alike, and objects that are no mapping at all (a list of pairs, the values as a tuple,
+a Row, a namedtuple, None).  A MutableMapping is judged by the statement; any other object may be refused with an
+error, but whatever is accepted must be judged by the statement too and must be stored as its values in column order.
 """
 import collections
+import collections.abc
 import copy
 import datetime
 import decimal
 import itertools
+import types
 import warnings
 
 import numpy
@@ -72,10 +83,107 @@ KEY_OF = {(type(v), v): "\x01" + t for t, v in KEYPOOL.items()}
 NFC, NFD = "\u00e9", "e\u0301"  # the same letter in two normal forms: two different keys
 ODD_NAMES = ["", "C0", " c0", "c0 ", NFC, NFD, "\u5217", "c" * 70, "0", "name", "type"]
 
+class MyMutableMapping(collections.abc.MutableMapping):
+    """a mutable mapping that is not a dict"""
+
+    def __init__(self, d):
+        self._d = dict(d)
+
+    def __getitem__(self, k):
+        return self._d[k]
+
+    def __setitem__(self, k, v):
+        self._d[k] = v
+
+    def __delitem__(self, k):
+        del self._d[k]
+
+    def __iter__(self):
+        return iter(self._d)
+
+    def __len__(self):
+        return len(self._d)
+
+
+class FrozenMap(collections.abc.Mapping):
+    """a read-only mapping (a Mapping, not a MutableMapping)"""
+
+    def __init__(self, d):
+        self._d = dict(d)
+
+    def __getitem__(self, k):
+        return self._d[k]
+
+    def __iter__(self):
+        return iter(self._d)
+
+    def __len__(self):
+        return len(self._d)
+
+
+class DuckMap:
+    """looks like a mapping (keys, items, get, [], in, len, iteration) but is registered with no ABC"""
+
+    def __init__(self, d):
+        self._d = dict(d)
+
+    def __getitem__(self, k):
+        return self._d[k]
+
+    def __iter__(self):
+        return iter(self._d)
+
+    def __len__(self):
+        return len(self._d)
+
+    def __contains__(self, k):
+        return k in self._d
+
+    def keys(self):
+        return self._d.keys()
+
+    def items(self):
+        return self._d.items()
+
+    def values(self):
+        return self._d.values()
+
+    def get(self, k, default=None):
+        return self._d.get(k, default)
+
+
+# record objects that ARE mutable mappings: the statement applies to them as it stands
 CONTAINERS = {
     "dict": dict, "OrderedDict": collections.OrderedDict, "defaultdict": lambda d: collections.defaultdict(list, d),
     "UserDict": collections.UserDict, "MyDict": MyDict,
+    "Counter": collections.Counter, "ChainMap": lambda d: collections.ChainMap(dict(d)),
+    "ChainMap2": lambda d: collections.ChainMap({}, dict(d)), "MyMutableMapping": MyMutableMapping,
 }
+# every other kind of object handed over as a record; (builder(dict, column names), has a mapping view)
+OTHER_KINDS = {
+    "mappingproxy": (lambda d, names: types.MappingProxyType(dict(d)), True),
+    "FrozenMap": (lambda d, names: FrozenMap(d), True),
+    "DuckMap": (lambda d, names: DuckMap(d), True),
+    "pairs": (lambda d, names: list(d.items()), True),
+    "items": (lambda d, names: dict(d).items(), True),
+    "values": (lambda d, names: tuple(d.get(n) for n in names), False),
+    "Row": (lambda d, names: _row_of(d, names), False),
+    "namedtuple": (lambda d, names: collections.namedtuple("R", ["f%d" % i for i in range(len(names))])(*[d.get(n) for n in names]), False),
+    "none": (lambda d, names: None, False),
+}
+RECORD_KINDS = list(CONTAINERS) + list(OTHER_KINDS)
+
+
+def _row_of(d, names):
+    from orso.row import Row
+
+    return Row.create_class(list(names))(tuple(d.get(n) for n in names))
+
+
+def kind_flags(obj):
+    """[isinstance dict, exact dict, MutableMapping, Mapping] of a record object, measured"""
+    return [isinstance(obj, dict), type(obj) is dict, isinstance(obj, collections.abc.MutableMapping),
+            isinstance(obj, collections.abc.Mapping)]
 
 
 def cls_name(v):
@@ -123,8 +231,23 @@ def make_schema(cols):
     return RelationSchema(name="t", columns=[make_col(c) for c in cols])
 
 
-def record_of(tags, container="dict"):
-    return CONTAINERS[container]({real_key(k): POOL[t] for k, t in tags.items()})
+def plain_record(tags):
+    return {real_key(k): POOL[t] for k, t in tags.items()}
+
+
+def record_of(tags, container="dict", names=()):
+    """The record object of kind `container` for the tagged record."""
+    d = plain_record(tags)
+    if container in CONTAINERS:
+        return CONTAINERS[container](d)
+    return OTHER_KINDS[container][0](d, list(names))
+
+
+def record_view(tags, container="dict"):
+    """What the record says, as a plain dict; None for an object that has no keys at all."""
+    if container in CONTAINERS or OTHER_KINDS[container][1]:
+        return plain_record(tags)
+    return None
 
 
 def sizable(tags):
@@ -194,12 +317,31 @@ def judge_validate(got, want):
     return "the error does not name precisely the offending columns"
 
 
+NOT_A_MAPPING = "an object that is not a mapping was accepted as a record"
+
+
+def judge_validate_kind(got, want, obj):
+    """`want` = the statement on the record's mapping view, None when the object has no keys at all.
+    A MutableMapping is judged by the statement.  Any other object may be refused with an error; when it is not
+    refused it is judged by the statement as well."""
+    if isinstance(obj, collections.abc.MutableMapping):
+        return judge_validate(got, want)
+    if got[0] == "raised":
+        return None
+    if want is None:
+        return NOT_A_MAPPING if got[0] in ("ok", "returned") else None
+    c = judge_validate(got, want)
+    return c and c + " (the record is not a mutable mapping, it was not refused as such either)"
+
+
 def run_validate(case):
     cols = [norm_col(c) for c in case["cols"]]
     schema = make_schema(cols)
-    rec = record_of(case["record"], case.get("container", "dict"))
+    kind = case.get("container", "dict")
+    rec = record_of(case["record"], kind, [c[0] for c in cols])
+    view = record_view(case["record"], kind)
     got = impl_validate(schema, rec)
-    return judge_validate(got, expected(cols, rec)), got
+    return judge_validate_kind(got, None if view is None else expected(cols, view), rec), got
 
 
 # ----------------------------------------------------------------------------- frames
@@ -216,18 +358,104 @@ def wire_eq(a, b):
     return True
 
 
-def run_frame(schema, cols, init_tags, records, how="list", containers=None):
-    """Appends `records` to a frame bound to `schema`; every verdict is judged against `cols`."""
-    from orso import DataFrame
+def same_rows(after, before):
+    return len(after) == len(before) and all(a is b for a, b in zip(after, before))
+
+
+def append_step(df, schema, cols, tags, kind, before, rows_now, lazy_first=False):
+    """One append of the tagged record (as an object of `kind`) to `df`, judged against `cols`.
+    Returns (clause, result, stored row or None, rows after)."""
     from orso.exceptions import DataError
 
-    init = [tuple(POOL[t] for t in row) for row in init_tags]
-    if how == "none" and not init:
-        df = DataFrame(schema=schema)
-    elif how == "gen":
-        df = DataFrame(rows=(r for r in list(init)), schema=schema)
+    names = [c[0] for c in cols]
+    rec = record_of(tags, kind, names)
+    view = record_view(tags, kind)
+    mutable = isinstance(rec, collections.abc.MutableMapping)
+    want = expected(cols, view) if view is not None else None
+    verdict = None
+    if not mutable:
+        # what validate itself says about this object: append must agree with it
+        verdict = impl_validate(schema, rec)
+    clause = None
+    try:
+        df.append(rec)
+        raised = None
+    except Exception as e:
+        raised = e
+    after = rows_now()
+    stored = None
+    if raised is not None:
+        got = outcome_of_exception(raised)
+        result = ["rejected", got] if got[0] in ("excess", "invalid") else ["raised", type(raised).__name__]
+        if not same_rows(after, before):
+            if lazy_first and len(after) == len(before) and all(wire_eq(tuple(a), tuple(b)) for a, b in zip(after, before)):
+                pass  # a lazy frame materialised: same rows, new list
+            else:
+                clause = clause or "append raised but changed the frame's rows"
+        if not mutable:
+            if verdict == ["ok"] and sizable(tags):
+                clause = clause or "append of a record that validate accepts raised %s" % type(raised).__name__
+        elif want[0] == "ok":
+            # accepted by validation but the row could not be stored (it cannot be sized): allowed only if atomic
+            if sizable(tags):
+                clause = clause or "append of a conforming record raised %s" % type(raised).__name__
+        elif not isinstance(raised, DataError):
+            clause = clause or "append of a non-conforming record raised %s, not a validation error" % type(raised).__name__
+        elif canon(got) != canon(want):
+            clause = clause or (judge_validate(got, want) + " (raised by append)")
     else:
-        df = DataFrame(rows=list(init), schema=schema)
+        result = ["ok"]
+        if not mutable and verdict != ["ok"]:
+            clause = clause or "append accepted a record that validate refuses (%s)" % (verdict[1] if verdict[0] == "raised" else verdict[0])
+        if want is None:
+            clause = clause or NOT_A_MAPPING
+        elif want[0] != "ok":
+            clause = clause or "append accepted a non-conforming record"
+        row = tuple(view.get(c[0]) for c in cols) if view is not None else None
+        if len(after) != len(before) + 1 or any(a is not b and not lazy_first for a, b in zip(after, before)):
+            clause = clause or "append did not add exactly one row"
+        elif row is None or not wire_eq(tuple(after[-1]), row):
+            clause = clause or "appended row does not hold the values in column order"
+        stored = after[-1] if len(after) == len(before) + 1 else row
+    return clause, result, stored, after
+
+
+def rows_conform(cols, rows):
+    for r in rows:
+        if len(r) != len(cols):
+            return "a stored row is not as wide as the schema"
+        for c, v in zip(cols, r):
+            if v is None and not c[2]:
+                return "a stored row has a null in a non-nullable column"
+            if v is not None and c[1] is not None and not isinstance(v, EXPECTED_CLASS[c[1]]):
+                return "a stored row has a wrongly typed value"
+    return None
+
+
+def abstract_rows(rows):
+    out = []
+    for r in rows:
+        try:
+            out.append([cls_name(v) for v in r])
+        except InfraError:
+            out.append(["?" + type(v).__name__ for v in r])
+    return out
+
+
+def make_frame(schema, init, how):
+    from orso import DataFrame
+
+    if how == "none" and not init:
+        return DataFrame(schema=schema)
+    if how == "gen":
+        return DataFrame(rows=(r for r in list(init)), schema=schema)
+    return DataFrame(rows=list(init), schema=schema)
+
+
+def run_frame(schema, cols, init_tags, records, how="list", containers=None):
+    """Appends `records` to a frame bound to `schema`; every verdict is judged against `cols`."""
+    init = [tuple(POOL[t] for t in row) for row in init_tags]
+    df = make_frame(schema, init, how)
     held = list(init)
     clause = None
     results = []
@@ -238,53 +466,19 @@ def run_frame(schema, cols, init_tags, records, how="list", containers=None):
 
     before = list(init) if how == "gen" else rows_now()
     for i, tags in enumerate(records):
-        rec = record_of(tags, (containers or {}).get(str(i), "dict") if isinstance(containers, dict) else "dict")
-        want = expected(cols, rec)
-        try:
-            df.append(rec)
-            raised = None
-        except Exception as e:
-            raised = e
-        after = rows_now()
-        if raised is not None:
-            got = outcome_of_exception(raised)
-            results.append(["rejected", got] if got[0] in ("excess", "invalid") else ["raised", type(raised).__name__])
-            if len(after) != len(before) or any(a is not b for a, b in zip(after, before)):
-                if how == "gen" and i == 0 and len(after) == len(before) and all(wire_eq(tuple(a), tuple(b)) for a, b in zip(after, before)):
-                    pass  # a lazy frame materialised: same rows, new list
-                else:
-                    clause = clause or "append raised but changed the frame's rows"
-            if want[0] == "ok":
-                # accepted by validation but the row could not be stored (it cannot be sized): allowed only if atomic
-                if sizable(tags):
-                    clause = clause or "append of a conforming record raised %s" % type(raised).__name__
-            elif not isinstance(raised, DataError):
-                clause = clause or "append of a non-conforming record raised %s, not a validation error" % type(raised).__name__
-            elif canon(got) != canon(want):
-                clause = clause or (judge_validate(got, want) + " (raised by append)")
-        else:
-            results.append(["ok"])
-            if want[0] != "ok":
-                clause = clause or "append accepted a non-conforming record"
-            row = tuple(rec.get(c[0]) for c in cols)
-            if len(after) != len(before) + 1 or any(a is not b and not (how == "gen" and i == 0) for a, b in zip(after, before)):
-                clause = clause or "append did not add exactly one row"
-            elif not wire_eq(tuple(after[-1]), row):
-                clause = clause or "appended row does not hold the values in column order"
-            held.append(row)
+        kind = (containers or {}).get(str(i), "dict") if isinstance(containers, dict) else "dict"
+        c, result, stored, after = append_step(df, schema, cols, tags, kind, before, rows_now, lazy_first=(how == "gen" and i == 0))
+        clause = clause or c
+        results.append(result)
+        if result == ["ok"]:
+            held.append(stored)
         before = after
     final = [tuple(r) for r in rows_now()]
-    if clause is None and (len(final) != len(held) or not all(wire_eq(a, b) for a, b in zip(final, held))):
+    if clause is None and (len(final) != len(held) or not all(wire_eq(a, tuple(b)) for a, b in zip(final, held))):
         clause = "the frame does not hold exactly the accepted records, in order"
     if clause is None:
-        for r in final:
-            for c, v in zip(cols, r):
-                if v is None and not c[2]:
-                    clause = "a stored row has a null in a non-nullable column"
-                if v is not None and c[1] is not None and not isinstance(v, EXPECTED_CLASS[c[1]]):
-                    clause = "a stored row has a wrongly typed value"
-    abstract = [[cls_name(v) for v in r] for r in final]
-    return clause, {"results": results, "rows": abstract}
+        clause = rows_conform(cols, final)
+    return clause, {"results": results, "rows": abstract_rows(final)}
 
 
 def run_appends(case):
@@ -324,6 +518,276 @@ def run_dictframe(case):
             elif not wire_eq(tuple(after[-1]), row):
                 clause = clause or "appended row does not hold the values in column order"
     return clause, {"rows": len(df._rows)}
+
+
+# ----------------------------------------------------------------------------- families of frames
+
+
+PREDICATES = {"all": lambda r: True, "nothing": lambda r: False, "first-set": lambda r: len(r) > 0 and r[0] is not None}
+LAZY_METHODS = ("filter", "take")
+NOT_ITS_OWN = ("a frame holds a record that was appended to another frame (or lost one to it): frames derived from one "
+               "another must each hold exactly their own original rows plus the records accepted by appends to them")
+FAMILY_ROWS = "a frame of the family does not hold exactly its original rows plus the records it accepted, in order"
+
+
+def mirror_derive(method, args, held, held_other=None):
+    """The rows a derived frame starts with, from the rows its parent holds now (plain list semantics)."""
+    n = len(held)
+    if method == "head":
+        return [held[: args[0]]]
+    if method == "tail":
+        return [held[max(n - args[0], 0):] if args[0] > 0 else []]
+    if method == "slice":
+        offset = args[0] if len(args) > 0 else 0
+        length = args[1] if len(args) > 1 else None
+        if offset < 0:
+            offset = max(n + offset, 0)
+        return [held[offset:] if length is None else held[offset: offset + length]]
+    if method == "query":
+        return [[r for r in held if PREDICATES[args[0]](r)]]
+    if method == "distinct":
+        out = []
+        for r in held:
+            if not any(r is x or wire_eq(tuple(r), tuple(x)) for x in out):
+                out.append(r)
+        return [out]
+    if method == "filter":
+        return [[r for r, m in zip(held, args[0]) if m]]
+    if method == "take":
+        return [[r for i, r in enumerate(held) if i in args[0]]]
+    if method == "batches":
+        chunks = [held[i: i + args[0]] for i in range(0, n, args[0])]
+        return [chunks[args[1] % len(chunks)] if chunks else []]
+    if method == "add":
+        return [list(held) + list(held_other)]
+    raise BadCase("derive %r" % (method,))
+
+
+def real_derive(method, args, df, other=None):
+    if method == "head":
+        return [df.head(args[0])]
+    if method == "tail":
+        return [df.tail(args[0])]
+    if method == "slice":
+        return [df.slice(*args)]
+    if method == "query":
+        return [df.query(PREDICATES[args[0]])]
+    if method == "distinct":
+        return [df.distinct()]
+    if method == "filter":
+        return [df.filter(list(args[0]))]
+    if method == "take":
+        return [df.take(list(args[0]))]
+    if method == "batches":
+        # the batch number args[1] (modulo how many there are); a frame without rows has no batches: an empty slice stands in
+        chunks = list(df.to_batches(args[0]))
+        return [chunks[args[1] % len(chunks)] if chunks else df.slice(0, 0)]
+    if method == "add":
+        return [df + other]
+    raise BadCase("derive %r" % (method,))
+
+
+def derive_args_ok(method, args, n_frames):
+    ints = lambda xs: all(isinstance(x, int) and not isinstance(x, bool) for x in xs)
+    if method in ("head", "tail"):
+        return len(args) == 1 and ints(args) and 0 <= args[0] <= 50
+    if method == "slice":
+        return len(args) <= 2 and ints(args[:1]) and -50 <= (args[0] if args else 0) <= 50 and \
+            (len(args) < 2 or args[1] is None or (ints(args[1:]) and 0 <= args[1] <= 50))
+    if method == "query":
+        return len(args) == 1 and args[0] in PREDICATES
+    if method == "distinct":
+        return len(args) == 0
+    if method == "filter":
+        return len(args) == 1 and isinstance(args[0], list) and all(isinstance(m, bool) for m in args[0])
+    if method == "take":
+        return len(args) == 1 and isinstance(args[0], list) and ints(args[0]) and all(0 <= i <= 60 for i in args[0])
+    if method == "batches":
+        return len(args) == 2 and ints(args) and 1 <= args[0] <= 1000 and 0 <= args[1] <= 50
+    if method == "add":
+        return len(args) == 1 and ints(args) and 0 <= args[0] < n_frames
+    return False
+
+
+FRAME_TOUCHES = ("nbytes", "hash", "str", "description", "shape", "row0", "fetch", "iter-once", "column_names")
+
+
+def touch_frame(df, what):
+    """Use a frame in a way that must not change its rows; what it returns (or raises) is other properties' business.
+    A lazily backed frame is materialised first: what reading one does to its generator is C04's business."""
+    df.materialize()
+    try:
+        if what == "nbytes":
+            df.nbytes()
+        elif what == "hash":
+            hash(df)
+        elif what == "str":
+            str(df)
+        elif what == "description":
+            df.description
+        elif what == "shape":
+            df.shape, df.rowcount, df.columncount
+        elif what == "row0":
+            df.row(0)
+        elif what == "fetch":
+            df.fetchone(), df.fetchmany(1)
+        elif what == "iter-once":
+            next(iter(df), None)
+        elif what == "column_names":
+            df.column_names, df.schema
+        else:
+            raise BadCase("touch %r" % (what,))
+    except BadCase:
+        raise
+    except Exception:
+        pass
+
+
+def run_family(case):
+    """A root frame and frames derived from it; every frame is a register of its own append history."""
+    cols = [norm_col(c) for c in case["cols"]]
+    schema = make_schema(cols)
+    init = [tuple(POOL[t] for t in row) for row in case["rows"]]
+    how = case.get("how", "list")
+    frames = [{"df": make_frame(schema, init, how), "held": list(init), "lazy": how == "gen"}]
+    clause = None
+    results = []
+    mismatch = 0
+    derive_raised = None
+    script = []       # the same program, as the model reads it
+    modelled = True   # False when a derived frame starts with rows that are not rows of its parent
+
+    def positions(rows, parent_rows):
+        """where the rows of a derived frame sit in its parent (by identity, in order); None if they do not"""
+        out, at = [], 0
+        for r in rows:
+            while at < len(parent_rows) and parent_rows[at] is not r:
+                at += 1
+            if at == len(parent_rows):
+                return None
+            out.append(at)
+            at += 1
+        return out
+
+    def eager_rows(f):
+        return list(f["df"]._rows) if isinstance(f["df"]._rows, list) else None
+
+    def holds(f, rows):
+        return len(rows) == len(f["held"]) and all(a is b or wire_eq(tuple(a), tuple(b)) for a, b in zip(rows, f["held"]))
+
+    def check_all(final=False):
+        for k, f in enumerate(frames):
+            if final:
+                f["df"].materialize()
+            rows = eager_rows(f)
+            if rows is not None and not holds(f, rows):
+                foreign = any(any(r is x for x in g["held"]) and not any(r is x for x in f["held"]) for r in rows for g in frames if g is not f)
+                return NOT_ITS_OWN if foreign or len(rows) != len(f["held"]) else FAMILY_ROWS
+        return None
+
+    for op in case["ops"]:
+        k = op[0]
+        if k == "append":
+            f = frames[op[1]]
+            kind = op[3] if len(op) > 3 else "dict"
+
+            def rows_now(f=f):
+                f["df"].materialize()
+                return list(f["df"]._rows)
+
+            script.append(["append", op[1], m_rec(op[2]), sizable(op[2]), kind_flags(record_of(op[2], kind, [c_[0] for c_ in cols]))])
+            lazy_first = not isinstance(f["df"]._rows, list)
+            before = list(f["held"]) if lazy_first else rows_now()
+            c, result, stored, after = append_step(f["df"], schema, cols, op[2], kind, before, rows_now, lazy_first=lazy_first)
+            results.append(result)
+            if result == ["ok"]:
+                f["held"] = f["held"] + [stored]
+            if c is not None and clause is None:
+                # a lazily backed frame that picked up foreign rows shows it here first: name the cause
+                clause = NOT_ITS_OWN if c in ("append raised but changed the frame's rows", "append did not add exactly one row") \
+                    and check_all() == NOT_ITS_OWN else c
+        elif k == "derive":
+            parent = frames[op[1]]
+            method, args = op[2], op[3]
+            if method in ("query", "distinct", "filter", "take"):
+                parent["df"].materialize()  # these read `_rows` as it is: a generator would be consumed (that is C04's business)
+            other = frames[args[0]] if method == "add" else None
+            expect = mirror_derive(method, args, parent["held"], other["held"] if other else None)
+            try:
+                got = real_derive(method, args, parent["df"], other["df"] if other else None)
+            except Exception as e:
+                # taking the frame failed (distinct on rows holding arrays, …): not this property's business; the program ends here
+                derive_raised = "%s:%s" % (method, type(e).__name__)
+                break
+            for df2, rows2 in zip(got, expect):
+                f2 = {"df": df2, "held": list(rows2)}
+                snap = eager_rows(f2)
+                if snap is not None and not holds(f2, snap):
+                    # WHICH rows a derived frame selects is not this property's business: take them as they are
+                    mismatch += 1
+                    f2["held"] = snap
+                frames.append(f2)
+            if method in ("head", "tail"):
+                script.append([method, op[1], args[0]])
+            elif method == "slice":
+                script.append(["slice", op[1], args[0] if args else 0, args[1] if len(args) > 1 else None])
+            elif method == "add":
+                script.append(["concat", op[1], args[0]])
+            else:
+                at = positions(frames[-1]["held"], parent["held"])
+                if at is None:
+                    modelled = False
+                script.append(["pick", op[1], {"batches": "to_batches"}.get(method, method), at or []])
+        elif k == "read":
+            f = frames[op[1]]
+            len(f["df"])
+            for _ in f["df"]:
+                pass
+        elif k == "touch":
+            touch_frame(frames[op[1]]["df"], op[2])
+        else:
+            raise BadCase("family op %r" % (k,))
+        if clause is None:
+            clause = check_all()
+    if clause is None:
+        clause = check_all(final=True)
+    finals = []
+    for f in frames:
+        f["df"].materialize()
+        finals.append([tuple(r) for r in f["df"]._rows])
+    if clause is None:
+        for rows in finals:
+            clause = clause or rows_conform(cols, rows)
+    return clause, {"results": results, "frames": [abstract_rows(r) for r in finals], "derived-content-differs": mismatch,
+                    "script": script if modelled else None, "derive-raised": derive_raised}
+
+
+def check_family(case):
+    cols = [norm_col(c) for c in case["cols"]]
+    if case.get("how", "list") not in ("list", "none", "gen") or (case.get("how") == "none" and case["rows"]):
+        return False
+    if not rows_ok(cols, case["rows"]):
+        return False
+    n = 1
+    for op in case["ops"]:
+        if op[0] == "append":
+            if not (len(op) in (3, 4) and isinstance(op[1], int) and 0 <= op[1] < n and isinstance(op[2], dict) and all(t in POOL for t in op[2].values())):
+                return False
+            if len(op) == 4 and op[3] not in RECORD_KINDS:
+                return False
+        elif op[0] == "derive":
+            if not (len(op) == 4 and isinstance(op[1], int) and 0 <= op[1] < n and isinstance(op[3], list) and derive_args_ok(op[2], op[3], n)):
+                return False
+            n += 1
+        elif op[0] == "read":
+            if not (len(op) == 2 and isinstance(op[1], int) and 0 <= op[1] < n):
+                return False
+        elif op[0] == "touch":
+            if not (len(op) == 3 and isinstance(op[1], int) and 0 <= op[1] < n and op[2] in FRAME_TOUCHES):
+                return False
+        else:
+            return False
+    return True
 
 
 # ----------------------------------------------------------------------------- sessions on one schema object
@@ -551,14 +1015,19 @@ def m_rows(rows):
     return [[cls_name(POOL[t]) for t in row] for row in rows]
 
 
-def m_appends(records):
-    return [[m_rec(r), sizable(r)] for r in records]
+def m_appends(records, containers=None, names=()):
+    out = []
+    for i, r in enumerate(records):
+        kind = (containers or {}).get(str(i), "dict")
+        out.append([m_rec(r), sizable(r)] if kind == "dict" else [m_rec(r), sizable(r), kind_flags(record_of(r, kind, names))])
+    return out
 
 
 def model_line(case):
     cols = [norm_col(c) for c in case["cols"]]
     if case["kind"] == "validate":
-        return "C05 validate " + wire.line(cols, m_rec(case["record"]))
+        kind = case.get("container", "dict")
+        return "C05 validatek " + wire.line(cols, m_rec(case["record"]), kind_flags(record_of(case["record"], kind, [c[0] for c in cols])))
     if case["kind"] == "session":
         ops = []
         cur = cols
@@ -582,7 +1051,11 @@ def model_line(case):
                 ops.append(list(op))
             cur = apply_to_mirror(cur, op)
         return "C05 session " + wire.line(cols, ops)
-    return "C05 appends " + wire.line(cols, m_rows(case["rows"]), m_appends(case["records"]))
+    return "C05 appends " + wire.line(cols, m_rows(case["rows"]), m_appends(case["records"], case.get("containers"), [c[0] for c in cols]))
+
+
+def family_line(case, script):
+    return "C05 family " + wire.line([norm_col(c) for c in case["cols"]], m_rows(case["rows"]), script)
 
 
 def valid_case(c):
@@ -599,18 +1072,36 @@ def valid_case(c):
         if not names_ok(cols):
             return False
         if kind == "validate":
-            return all(t in POOL for t in c["record"].values()) and c.get("container", "dict") in CONTAINERS
+            return all(t in POOL for t in c["record"].values()) and c.get("container", "dict") in RECORD_KINDS
         if kind == "session":
             return check_session(c)
+        if kind == "family":
+            return check_family(c)
         if kind != "appends":
             return False
         if c.get("how", "list") not in ("list", "none", "gen") or (c.get("how") == "none" and c["rows"]):
             return False
-        if not all(v in CONTAINERS for v in (c.get("containers") or {}).values()):
+        if not all(v in RECORD_KINDS for v in (c.get("containers") or {}).values()):
             return False
         return rows_ok(cols, c["rows"]) and all(all(t in POOL for t in r.values()) for r in c["records"])
     except Exception:
         return False
+
+
+def tidy(c):
+    """Drop what a shrunk case no longer uses: record objects named for appends that are gone, defaults spelled out."""
+    c = copy.deepcopy(c)
+    if c.get("kind") in ("appends", "dictframe") and isinstance(c.get("containers"), dict):
+        c["containers"] = {k: v for k, v in c["containers"].items() if k.isdigit() and int(k) < len(c["records"]) and v != "dict"}
+        if not c["containers"]:
+            del c["containers"]
+    if c.get("container") == "dict":
+        del c["container"]
+    if c.get("how") == "list":
+        del c["how"]
+    if c.get("kind") == "family":
+        c["ops"] = [op[:3] if op[0] == "append" and len(op) > 3 and op[3] == "dict" else op for op in c["ops"]]
+    return c
 
 
 def norm_excess(o):
@@ -629,7 +1120,7 @@ def results_agree(model_results, impl_results):
         return False
     for m, i in zip(model_results, impl_results):
         m = norm_result(m)
-        if m[0] == "unsizable":
+        if m[0] == "unsizable" or m == ["rejected", ["other"]]:
             if i[0] != "raised":
                 return False
         elif m != (["rejected", canon(i[1])] if i[0] == "rejected" else i):
@@ -645,7 +1136,8 @@ def run_multi(case):
     return clause, got
 
 
-RUNNERS = {"validate": run_validate, "appends": run_appends, "session": run_session, "dictframe": run_dictframe, "multi": run_multi}
+RUNNERS = {"validate": run_validate, "appends": run_appends, "session": run_session, "dictframe": run_dictframe, "multi": run_multi,
+           "family": run_family}
 
 SHARED = ("the verdict depends on other schema objects used earlier in the same process (state shared between objects): "
           "alone, the last case of this sequence is judged correctly")
@@ -744,19 +1236,22 @@ def _isolate(c_min, c, clause, shown, history, t0):
 
 
 def evaluate(ctx, cases):
-    modelled = [c for c in cases if c["kind"] not in ("dictframe", "multi")]
-    mouts = dict(zip([id(c) for c in modelled], ctx.model.batch([model_line(c) for c in modelled])))
+    # a family is run first: where the rows of a query / distinct / batch sit in the parent is read off the frames
+    ran = {id(c): run_family(c) for c in cases if c["kind"] == "family"}
+    modelled = [c for c in cases if c["kind"] not in ("dictframe", "multi") and (c["kind"] != "family" or ran[id(c)][1]["script"] is not None)]
+    lines = [family_line(c, ran[id(c)][1]["script"]) if c["kind"] == "family" else model_line(c) for c in modelled]
+    mouts = dict(zip([id(c) for c in modelled], ctx.model.batch(lines)))
     for c in cases:
         kind = c["kind"]
         m = None
-        if kind not in ("dictframe", "multi"):
+        if id(c) in mouts:
             mo = mouts[id(c)]
             if not mo.startswith("ok "):
                 raise InfraError("model rejected %r: %r" % (c, mo))
             m = wire.dec_all(mo[3:])
         fn = RUNNERS[kind]
-        clause, got = fn(c)
-        ctx.case(c, nontrivial=kind in ("dictframe", "multi", "session") or len(c["cols"]) >= 1)
+        clause, got = ran[id(c)] if kind == "family" else fn(c)
+        ctx.case(c, nontrivial=kind in ("dictframe", "multi", "session", "family") or len(c["cols"]) >= 1)
         record_distribution(ctx, c, got)
         if clause is not None:
             shown = clause
@@ -781,14 +1276,25 @@ def evaluate(ctx, cases):
             c_min = c
             if not ctx.replaying and not any(v.get("sig") == shown for v in ctx.violations):
                 c_min = shrink(c, still, budget=400)
+                t_ = tidy(c_min)
+                if t_ != c_min and still(t_):
+                    c_min = t_
                 c_min, shown = isolate(c_min, c, clause, shown, HISTORY_BUF)
             ctx.fail(c_min, shown, impl=RUNNERS[c_min["kind"]](c_min)[1], model=m, detail=None if shown == clause else clause)
             HISTORY_BUF.add(c)
             continue
         HISTORY_BUF.add(c)
         if kind == "validate":
-            if norm_excess(m[0]) != canon(got):
+            if norm_excess(m[0]) != (["other"] if got[0] == "raised" else canon(got)):
                 ctx.disagree(c, got, m[0])
+        elif kind == "family":
+            if m is None:
+                ctx.hit("family:not-modelled")
+            else:
+                if m[0] != m[2]:
+                    ctx.hit("family:model-says-frames-share-rows")
+                if m[0] != got["frames"] or not results_agree(m[1], got["results"]):
+                    ctx.disagree(c, {k_: got[k_] for k_ in ("frames", "results")}, m[:2])
         elif kind == "appends":
             if m[0] != got["rows"] or not results_agree(m[2], got["results"]):
                 ctx.disagree(c, got, m)
@@ -817,7 +1323,7 @@ def record_distribution(ctx, c, got):
         if got[0] == "invalid":
             ctx.hit("rules-fired:%d" % sum(1 for x in got[1:] if x))
         if c.get("container", "dict") != "dict":
-            ctx.hit("record-container:" + c["container"])
+            ctx.hit("record-object:" + c["container"])
         if any(k.startswith("\x01") for k in c["record"]):
             ctx.hit("record-key:not-a-string")
         for t in c["record"].values():
@@ -828,8 +1334,34 @@ def record_distribution(ctx, c, got):
         ctx.hit("frame-created:" + c.get("how", "list"))
         for r in got["results"]:
             ctx.hit("append:" + r[0])
-        if c.get("containers"):
-            ctx.hit("append-record-container:not-a-dict", len(c["containers"]))
+        for k_ in (c.get("containers") or {}).values():
+            if k_ != "dict":
+                ctx.hit("append-record-object:" + k_)
+    elif kind == "family":
+        ctx.hit("family-root-created:" + c.get("how", "list"))
+        sizes = [len(c["rows"])]
+        for op in c["ops"]:
+            if op[0] == "derive":
+                ctx.hit("family-derive:" + op[2])
+                n = len(got["frames"][op[1]]) if op[1] < len(got["frames"]) else 0
+                if op[2] in ("head", "tail") or (op[2] == "slice" and len(op[3]) == 2 and op[3][1] is not None):
+                    want = op[3][-1]
+                    ctx.hit("family-derive-size:" + ("whole-or-more" if want >= n else "part"))
+            elif op[0] == "append":
+                ctx.hit("family-append-to:" + ("root" if op[1] == 0 else "derived"))
+                if len(op) > 3 and op[3] != "dict":
+                    ctx.hit("append-record-object:" + op[3])
+            elif op[0] == "touch":
+                ctx.hit("family-touch:" + op[2])
+            else:
+                ctx.hit("family-read")
+        for r in got["results"]:
+            ctx.hit("family-append:" + r[0])
+        if got["derive-raised"]:
+            ctx.hit("family:derive-raised:" + got["derive-raised"])
+        if got["derived-content-differs"]:
+            ctx.hit("family:derived-content-differs-from-plain-list-semantics", got["derived-content-differs"])
+        ctx.hit("family-frames", len(got["frames"]))
     elif kind == "session":
         changed = False
         for op in c["ops"]:
@@ -915,8 +1447,8 @@ def gen_record_tags(rng, cols, p_valid=0.5, also=()):
 def gen_validate(rng):
     cols = gen_cols(rng)
     c = {"kind": "validate", "cols": cols, "record": gen_record_tags(rng, cols)}
-    if rng.random() < 0.2:
-        c["container"] = rng.choice(list(CONTAINERS))
+    if rng.random() < 0.25:
+        c["container"] = rng.choice(RECORD_KINDS)
     return c
 
 
@@ -950,8 +1482,8 @@ def gen_appends(rng):
         c["how"] = "gen"
     elif r < 0.4 and not rows:
         c["how"] = "none"
-    if rng.random() < 0.25:
-        c["containers"] = {str(i): rng.choice(list(CONTAINERS)) for i in range(len(recs)) if rng.random() < 0.5}
+    if rng.random() < 0.3:
+        c["containers"] = {str(i): rng.choice(RECORD_KINDS) for i in range(len(recs)) if rng.random() < 0.5}
     return c
 
 
@@ -1056,6 +1588,81 @@ def gen_session(rng):
     return {"kind": "session", "cols": cols, "ops": ops}
 
 
+def gen_derive(rng, n_frames, sizes):
+    """One derivation from an existing frame; `sizes` = how many rows each frame holds now (as the generator tracks it)."""
+    i = rng.randrange(n_frames)
+    n = sizes[i]
+    near = [0, 1, max(n - 1, 0), n, n + 1, n + 5, 5]
+    m = rng.choice(["head", "head", "tail", "tail", "slice", "slice", "query", "distinct", "filter", "take", "batches", "add"])
+    if m in ("head", "tail"):
+        args = [rng.choice(near)]
+    elif m == "slice":
+        r = rng.random()
+        if r < 0.25:
+            args = []
+        elif r < 0.5:
+            args = [rng.choice([0, 0, -n, -n - 1, 1, -1]), None]
+        else:
+            args = [rng.choice([0, 0, 0, -n, -n - 2, 1, -1, n]), rng.choice(near)]
+    elif m == "query":
+        args = [rng.choice(list(PREDICATES))]
+    elif m == "distinct":
+        args = []
+    elif m == "filter":
+        args = [[rng.random() < 0.8 for _ in range(n + rng.choice([0, 0, 1, 3]))]]
+    elif m == "take":
+        args = [sorted(rng.sample(range(n + 3), rng.randint(0, n + 3)))]
+    elif m == "batches":
+        args = [rng.choice([1, 2, max(n, 1), n + 1, 1000]), rng.randint(0, 3)]
+    else:
+        args = [rng.randrange(n_frames)]
+    return ["derive", i, m, args]
+
+
+def family_size_after(op, sizes):
+    """upper estimate of the rows the new frame starts with (only used to aim the generator at the boundaries)"""
+    n = sizes[op[1]]
+    m, a = op[2], op[3]
+    if m in ("head", "tail"):
+        return min(n, a[0])
+    if m == "add":
+        return n + sizes[a[0]]
+    if m == "batches":
+        return min(n, a[0])
+    return n
+
+
+def gen_family(rng):
+    cols = gen_cols(rng, rng.randint(1, 3))
+    rows = gen_init_rows(rng, cols, rng.choice([0, 1, 2, 2, 3]))
+    how = "gen" if rng.random() < 0.15 else ("none" if not rows and rng.random() < 0.5 else "list")
+    sizes = [len(rows)]
+    ops = []
+    for _ in range(rng.randint(3, 10)):
+        r = rng.random()
+        if r < 0.5 or (not ops and not rows):
+            i = rng.randrange(len(sizes))
+            tags = gen_record_tags(rng, cols, 0.8)
+            op = ["append", i, tags]
+            if rng.random() < 0.15:
+                op.append(rng.choice(RECORD_KINDS))
+            ops.append(op)
+            if expected(cols, plain_record(tags))[0] == "ok" and (len(op) == 3 or op[3] in CONTAINERS):
+                sizes[i] += 1
+        elif r < 0.9:
+            op = gen_derive(rng, len(sizes), sizes)
+            ops.append(op)
+            sizes.append(family_size_after(op, sizes))
+        elif r < 0.95:
+            ops.append(["read", rng.randrange(len(sizes))])
+        else:
+            ops.append(["touch", rng.randrange(len(sizes)), rng.choice(FRAME_TOUCHES)])
+    c = {"kind": "family", "cols": cols, "rows": rows, "ops": ops}
+    if how != "list":
+        c["how"] = how
+    return c
+
+
 def gen_dictframe(rng):
     keys = ["k%d" % i for i in range(rng.randint(1, 3))]
     first = [{k: rng.choice(ORDINARY) for k in keys} for _ in range(rng.randint(1, 2))]
@@ -1124,6 +1731,66 @@ def decision_table():
                "containers": {"0": container, "1": container}}
 
 
+def kinds_table():
+    """Every kind of record object through validate and through append: conforming, with each single offence, and with
+    the keys in the other order."""
+    cols = [["a", "INTEGER", False], ["b", "VARCHAR", True]]
+    recs = [{"a": "int", "b": "str"}, {"b": "str", "a": "int"}, {"a": "int", "b": "none"}, {"a": "str", "b": "str"}, {"a": "none", "b": "str"},
+            {"a": "int"}, {"a": "int", "b": "str", "zz": "int"}, {}, {"b": "bytes", "a": "true"}]
+    for kind in RECORD_KINDS:
+        for rec in recs:
+            yield {"kind": "validate", "cols": cols, "record": rec, "container": kind}
+        yield {"kind": "validate", "cols": [], "record": {}, "container": kind}
+        yield {"kind": "validate", "cols": [["a", None, True]], "record": {"a": "list"}, "container": kind}
+        for how, rows in (("list", [["int", "str"]]), ("none", []), ("gen", [["int", "none"]])):
+            yield {"kind": "appends", "cols": cols, "rows": rows, "how": how, "records": recs[:3] + recs[3:7] + [recs[0]],
+                   "containers": {str(i): kind for i in range(8)}}
+        # the same object kind between two plain records: what it leaves behind must not disturb the next append
+        yield {"kind": "appends", "cols": cols, "rows": [], "records": [recs[0], recs[1], recs[0]], "containers": {"1": kind}}
+        yield {"kind": "appends", "cols": [["a", None, True]], "rows": [], "records": [{"a": "int70"}, {"a": "list"}], "containers": {"0": kind, "1": kind}}
+
+
+def family_table():
+    """Derived frames as further registers of one append history: for every way of taking a frame from another one, at
+    and around the size of the parent, append to the parent, to the child, to both, before and after the child was read."""
+    cols = [["a", "INTEGER", False], ["b", "VARCHAR", True]]
+    good, good2, bad = {"a": "int", "b": "str"}, {"b": "none", "a": "bigint"}, {"a": "str", "b": "str"}
+    for n in (0, 1, 2, 3):
+        rows = [["int", "str"], ["int0", "none"], ["bigint", "empty"]][:n]
+        derivations = [["head", [k]] for k in sorted({0, 1, max(n - 1, 0), n, n + 1, 5})]
+        derivations += [["tail", [k]] for k in sorted({0, 1, max(n - 1, 0), n, n + 1, 5})]
+        derivations += [["slice", []], ["slice", [0]], ["slice", [0, None]], ["slice", [0, n]], ["slice", [0, n + 1]], ["slice", [0, max(n - 1, 0)]],
+                        ["slice", [-n, None]], ["slice", [-n - 1, None]], ["slice", [-n, n]], ["slice", [-n - 1, n + 1]], ["slice", [1, None]],
+                        ["slice", [1, n]], ["slice", [-1, 1]], ["slice", [n, None]], ["slice", [0, 0]]]
+        derivations += [["query", ["all"]], ["query", ["nothing"]], ["distinct", []], ["filter", [[True] * n]], ["filter", [[True] * (n + 2)]],
+                        ["take", [list(range(n))]], ["take", [list(range(n + 3))]], ["batches", [max(n, 1), 0]], ["batches", [n + 1, 0]],
+                        ["batches", [1, 0]], ["batches", [1000, 0]], ["add", [0]]]
+        for how in ("list", "gen") if n else ("list", "none"):
+            for m, args in derivations:
+                for script in (
+                    [["derive", 0, m, args], ["append", 0, good], ["append", 0, bad], ["append", 1, good2], ["append", 0, good2]],
+                    [["derive", 0, m, args], ["append", 1, good], ["append", 1, bad], ["append", 0, good2]],
+                    [["derive", 0, m, args], ["read", 1], ["append", 0, good], ["read", 1], ["append", 1, good2]],
+                    [["append", 0, good], ["derive", 0, m, args], ["append", 0, good2], ["derive", 1, m, args], ["append", 2, good], ["append", 1, bad], ["append", 1, good]],
+                ):
+                    if m == "add" and script[0][0] != "derive":
+                        continue
+                    c = {"kind": "family", "cols": cols, "rows": rows, "ops": script}
+                    if how != "list":
+                        c["how"] = how
+                    yield c
+    # the frames are used in between: sized, hashed, printed, fetched from, iterated
+    for what in FRAME_TOUCHES:
+        for m, args in (["head", [5]], ["slice", []], ["tail", [2]], ["filter", [[True, True, True]]]):
+            yield {"kind": "family", "cols": cols, "rows": [["int", "str"], ["int0", "none"]],
+                   "ops": [["touch", 0, what], ["derive", 0, m, args], ["touch", 0, what], ["touch", 1, what], ["append", 0, good], ["touch", 1, what],
+                           ["append", 1, good2], ["touch", 0, what], ["append", 0, bad], ["append", 1, good]]}
+    # odd record objects into a derived frame and into its parent
+    rows = [["int", "str"]]
+    for kind in ("mappingproxy", "FrozenMap", "UserDict", "ChainMap", "pairs", "Row"):
+        yield {"kind": "family", "cols": cols, "rows": rows, "ops": [["derive", 0, "head", [5]], ["append", 1, good, kind], ["append", 0, good2, kind], ["append", 1, good]]}
+
+
 def session_table():
     """Use -> change -> use again, once for every way the column list of one schema object can change."""
     a, b, d = ["a", "INTEGER", False, ["id"]], ["b", "VARCHAR", True, []], ["d", "DOUBLE", True, []]
@@ -1164,20 +1831,23 @@ def session_table():
 
 
 def run(ctx):
-    ctx.note("rule", "validate(record), append histories on schema-bound and dictionary-built frames, and sessions on one schema object (use, change, use again); non-trivial = schema with at least one column or a session; distinct by canonical JSON")
-    cases = list(decision_table())
+    ctx.note("rule", "validate(record object), append histories on schema-bound and dictionary-built frames, sessions on one schema object (use, change, use again) and families of frames derived from one another (appends to any of them); non-trivial = schema with at least one column, a session or a family; distinct by canonical JSON")
+    cases = list(decision_table()) + list(kinds_table())
     n_dec = len(cases)
     sess = list(session_table())
-    cases += sess
+    fam = list(family_table())
+    cases += sess + fam
     evaluate(ctx, cases)
+    ctx.note("family_scope", "family table: a root frame of 0..3 rows created from a list / None / a generator x every way of taking a frame from it (head, tail, slice at, one below and one past the size of the parent, with and without a length, negative offsets; query, distinct, filter and take with masks / indexes longer than the frame, to_batches, +) x four scripts (append to the parent, to the child, read the child in between, a chain of three frames) (%d cases); every record object (dict, OrderedDict, defaultdict, UserDict, a dict subclass, Counter, ChainMap, a custom MutableMapping; MappingProxyType, a custom read-only Mapping, a duck-typed look-alike; a list of pairs, dict_items, the values as a tuple, a Row, a namedtuple, None) through validate and through append on frames created each way" % len(fam))
     ctx.note("exhaustive_scope", "decision table: every column type (and untyped) x nullable x every value of the pool (subclasses, numpy scalars, unhashable and nested values, 64-bit limits), every subset of {missing, null, wrong type, excess} in two key orders and three record containers, record keys that are not strings or differ from a name in case / normal form / a trailing space, the row serialiser's limits for each way a frame is created (%d cases); session table: use -> change -> use again for every way the column list of one schema object can change x first use x state touched in between (%d cases); then random schemas, records, append histories and sessions" % (n_dec, len(sess)))
-    n = ctx.scale(24000, 500000)
+    n = ctx.scale(40000, 500000)
     done = 0
     while done < n and ctx.time_left() > 5:
         batch = []
         for _ in range(1500):
             r = ctx.rng.random()
-            batch.append(gen_validate(ctx.rng) if r < 0.4 else gen_appends(ctx.rng) if r < 0.62 else gen_session(ctx.rng) if r < 0.95 else gen_dictframe(ctx.rng))
+            batch.append(gen_validate(ctx.rng) if r < 0.33 else gen_appends(ctx.rng) if r < 0.5 else gen_session(ctx.rng) if r < 0.75
+                         else gen_family(ctx.rng) if r < 0.96 else gen_dictframe(ctx.rng))
         evaluate(ctx, batch)
         done += len(batch)
     # appends that pass validation at the record size cap: exactly at it, one past it, far past it (slow: single cases)
@@ -1217,7 +1887,8 @@ def run_appends_huge(case):
 def intensify(ctx):
     for _ in range(5):
         evaluate(ctx, [gen_validate(ctx.rng) for _ in range(2000)] + [gen_appends(ctx.rng) for _ in range(1000)]
-                 + [gen_session(ctx.rng) for _ in range(1500)] + [gen_dictframe(ctx.rng) for _ in range(100)])
+                 + [gen_session(ctx.rng) for _ in range(1500)] + [gen_dictframe(ctx.rng) for _ in range(100)]
+                 + [gen_family(ctx.rng) for _ in range(1500)])
         if ctx.violations:
             return
 
